@@ -1,7 +1,7 @@
 (* ===== C07 : multi-part formulas ===== *)
 From Coq Require Import List NArith ZArith QArith Qcanon Bool Arith.
 Import ListNotations.
-Require Import Mat MatDrop MatParts.
+Require Import Mat MatDrop MatParts MatSep.
 Open Scope nat_scope.
 
 (* one output part per part of the formula, in order (the nested shape is restored by the same flatten/map pair as C19) *)
@@ -25,6 +25,19 @@ Theorem C07_parts_from_shared_pool : forall d n c parts outs,
               (na_action c = NaRaise -> all_nulls evs = []).
 Proof. exact build_parts_inv. Qed.
 
+(* THE statement of the property: every part equals a separate build of that part alone on the jointly kept rows
+   (the rows the whole formula drops are passed in as the caller's drop set; nothing else of the other parts matters).
+   `consistent`: the kind of a factor is a function of its expression text, as the parser guarantees. *)
+Theorem C07_part_equals_separate_build : forall d n c (parts : list (list term)) outs k part o,
+  consistent (concat (concat parts)) ->
+  build_parts d n c parts = inl outs -> nth_error parts k = Some part -> nth_error outs k = Some o ->
+  build d n {| full_rank := full_rank c; na_action := NaIgnore; caller_drop := o_drop o |} part = inl o.
+Proof. exact part_equals_separate_build. Qed.
+(* which rests on: assembling reads the evaluated pool only at the expressions of the part's own factors *)
+Theorem C07_assemble_reads_only_own_factors : forall evs evs' drop n fr terms,
+  agree evs evs' (concat terms) -> assemble evs drop n fr terms = assemble evs' drop n fr terms.
+Proof. exact assemble_ext. Qed.
+
 Example C07_example :
   let d := [([97]%N, CNum [Some (Q2Qc 1); None; Some (Q2Qc 3)]); ([98]%N, CNum [Some (Q2Qc 5); Some (Q2Qc 6); None])] in
   match build_parts d 3 {| full_rank := true; na_action := NaDrop; caller_drop := [] |}
@@ -37,4 +50,6 @@ Print Assumptions C07_shape_preserved.
 Print Assumptions C07_parts_row_aligned.
 Print Assumptions C07_joint_drop_set.
 Print Assumptions C07_parts_from_shared_pool.
+Print Assumptions C07_part_equals_separate_build.
+Print Assumptions C07_assemble_reads_only_own_factors.
 Print Assumptions C07_example.
